@@ -54,6 +54,10 @@ def cases(tier, rng):
                 yield {'k': 'ubi', 'Nb': Nb, 'pos': (1 << 64) - kk, 'ml': ml, 'L': None if ml % 2 == 0 else 8 * ml - 5}
         for pos in ((1 << 32) - nb, (1 << 95), 0):
             yield {'k': 'ubi', 'Nb': Nb, 'pos': pos, 'ml': 2 * nb + 1, 'L': None}
+        # carries out of every word of the 96-bit position field, also when higher bits are already set
+        for base in (1 << 65, 3 << 64, 1 << 66, (1 << 66) + (1 << 64), 1 << 80, 1 << 95, (1 << 96) - (1 << 64), 1 << 32, 1 << 33, 7 << 64):
+            for kk in (1, nb, 2 * nb + 1):
+                yield {'k': 'ubi', 'Nb': Nb, 'pos': base - kk, 'ml': 3 * nb + 1, 'L': None}
 
 def noval(c, Nb):
     return {'8': 8, 'Nb-8': Nb - 8, 'Nb': Nb, 'Nb+8': Nb + 8, '2Nb': 2 * Nb, '4Nb': 4 * Nb, '24': 24, 'Nb+16': Nb + 16}[c]
@@ -180,7 +184,7 @@ def run(case, ctx, rng):
     elif k == 'ubi':
         pos, ml, L = case['pos'], case['ml'], case['L']
         M = rng.randbytes(ml); G = rng.randbytes(nb)
-        ctx.cls((Nb, 'ubi', pos.bit_length(), (1 << 64) - pos if pos > (1 << 63) else 0, ml % nb, min(ml // nb, 3), L is not None))
+        ctx.cls((Nb, 'ubi', pos.bit_length(), (-pos) % (1 << 32), ml % nb, min(ml // nb, 3), L is not None))
         det = dict(Nb=Nb, pos=pos, M=M, L=L, G=G)
         rs.TRACE = []
         want = rs.ubi(G, M, (rs.T_MSG << 120) + pos, L)
